@@ -366,7 +366,8 @@ def run(chk):
     # the spacing restriction: in the (inlined) frame set-up an indexed frame with non-uniform spacing raises in the
     # mode, and nothing else (such as a spacing value already present) lets that path off
     fsetup = ix.get_method("FrameItem", "setup_from_data")
-    fs = chk.terms.inline(fsetup, 4, stop=lambda g: g.kind == "staticmethod")  # pure helpers stay opaque calls
+    # (pure helpers - static methods, module functions - stay opaque calls)
+    fs = chk.terms.inline(fsetup, 4, stop=lambda g: g.kind == "staticmethod" or g.cls is None)
     flag = A(("global", "global_config"), FLAG)
     hits = []
     for pc, exc in raise_conditions(fs):
